@@ -5,6 +5,7 @@ import (
 	"io"
 	"os"
 	"path"
+	"runtime/debug"
 	"strings"
 
 	"github.com/pkg/errors"
@@ -19,7 +20,17 @@ import (
 
 // main3 is the real main function. It takes its output streams and command-line
 // arguments as parameters to support testability.
-func main3(args []string, fs afero.Fs, logger *logrus.Logger, stdin io.Reader, stdout io.Writer) error {
+func main3(args []string, fs afero.Fs, logger *logrus.Logger, stdin io.Reader, stdout io.Writer) (err error) {
+	// A command must end with its output or an error: report a panic raised while running it
+	// (e.g. a lookup of an undefined application in a generator) as an error instead of
+	// crashing with a Go stack trace.
+	defer func() {
+		if r := recover(); r != nil {
+			logger.Debugf("%s", debug.Stack())
+			err = fmt.Errorf("internal error: %v", r)
+		}
+	}()
+
 	flags, err := syslutil.PopulateCMDFlagsFromFile(args)
 	if err == nil && len(flags) > 0 {
 		// apply flags in file
